@@ -79,8 +79,23 @@ def build_case(rec, pool, variant, status_code=None):
     private = ["priv-KEY/with+chars=and space", "s3cr3t&key?x=1#frag%41", "0b9f5c3e-7d1a-4c2b-9e8f-6a5d4c3b2a1f", "ünï-çødé/ключ+鍵"][variant % 4]
     c.sc = fa.Scenario(project="5f1a2b3c4d5e6f7a8b9c%04d" % (variant % 10000), cluster="Cluster%d" % (variant % 9),
                        conn_hosts=[hp for _, hp in c.names], payloads=payloads, auth=rec["auth"], faults=faults,
-                       public="pubKEY%d" % variant, private=private)
+                       public="pubKEY%d" % variant, private=private, chunked=(variant % 3 == 2))
     c.prepare = None
+    c.encrypt = False
+    if not rec.get("keyOk", True):
+        # --encrypt with a key file that exists but is unusable (or whose directory is missing)
+        c.encrypt = True
+        how = variant % 3
+
+        def prepk(d, how=how):
+            p = os.path.join(d, "enc.key")
+            if how == 0:
+                open(p, "w").write("this is not a key")
+            elif how == 1:
+                open(p, "wb").write(base64.b64encode(b"short"))
+            else:
+                os.mkdir(p)
+        c.prepare = prepk
     if fk == "outdir":
         k = fat - 1
         how = variant % 2
@@ -121,7 +136,7 @@ def expected_outputs(b, c, flags, workdir, keyfile=None):
 
 def run_case(b, c, workdir, flags=(), key_by="env", start=None, end=None, encrypt=False):
     if c.rec["cli"]:
-        obs = al.run_atlas_cli(b, c.sc, workdir, flags=flags, key_by=key_by, start=start, end=end, prepare=c.prepare, encrypt=encrypt)
+        obs = al.run_atlas_cli(b, c.sc, workdir, flags=flags, key_by=key_by, start=start, end=end, prepare=c.prepare, encrypt=encrypt or c.encrypt)
         obs["level"] = "cli"
     else:
         obs = al.run_atlas_lib(b, c.sc, workdir, start=start or 1700000000, end=end or 1700600000)
@@ -132,7 +147,7 @@ def run_case(b, c, workdir, flags=(), key_by="env", start=None, end=None, encryp
 def events_of(c, obs, complete_outs):
     rec = c.rec
     idx = {h: i for i, (h, _) in enumerate(c.names, 1)}
-    ev = [{"ev": "Init", "n": rec["n"], "auth": rec["auth"], "fault": rec["fault"], "cli": rec["cli"]}]
+    ev = [{"ev": "Init", "n": rec["n"], "auth": rec["auth"], "fault": rec["fault"], "cli": rec["cli"], "keyOk": rec.get("keyOk", True)}]
     for r in obs["requests"]:
         t = 0 if r.get("kind") == "cluster" else idx.get(r.get("host"), 99)
         ev.append({"ev": "Req", "t": t, "authed": bool(r.get("authorization")), "tmp": len(r.get("tmp") or [])})
